@@ -379,10 +379,6 @@ int KSI_MetaDataElement_fromTlv(KSI_TLV *tlv, KSI_MetaDataElement **metaData) {
 		goto cleanup;
 	}
 
-	/* Make sure the content is valid. */
-	res = metaDataElementTlv_verify(tlv);
-	if (res != KSI_OK) goto cleanup;
-
 	res = KSI_MetaDataElement_new(KSI_TLV_getCtx(tlv), &tmp);
 	if (res != KSI_OK) goto cleanup;
 
@@ -399,6 +395,11 @@ int KSI_MetaDataElement_fromTlv(KSI_TLV *tlv, KSI_MetaDataElement **metaData) {
 
 	/* Detach the element. */
 	res = KSI_TlvElement_detach(tmp->impl);
+	if (res != KSI_OK) goto cleanup;
+
+	/* Make sure the content is valid. This parses the TLV as nested, after which its value
+	 * would be handed out re-encoded: the octets as received must have been copied by now. */
+	res = metaDataElementTlv_verify(tlv);
 	if (res != KSI_OK) goto cleanup;
 
 	*metaData = tmp;
